@@ -346,3 +346,10 @@ Fixpoint wf_nodeb (known : byte -> bool) (str_ok : bytes -> bool) (n : node) : b
 Definition wf_node (n : node) : Prop := wf_nodeb known_prim utf8_valid n = true.
 
 Definition dres_node_eqb : dres node -> dres node -> bool := dres_eqb node_eqb.
+
+(* the grammar instantiated for pytezos, and for Tezos itself (any byte string is text) *)
+Definition any_text (_ : bytes) : bool := true.
+Definition MichEnc : node -> bytes -> Prop := Enc known_prim utf8_valid.
+Definition MichEncList : list node -> bytes -> Prop := EncList known_prim utf8_valid.
+Definition TezosEnc : node -> bytes -> Prop := Enc known_prim any_text.
+Definition dec_full_tezos : bytes -> dres node := dec_full_gen known_prim any_text.
